@@ -92,13 +92,29 @@ Proof.
 Qed.
 
 (* an exchange turn either fails or flushes exactly one data batch after its logs; it never finishes *)
+Definition exch_emits (a : act) : Prop := a = AEmit \/ a = AEmitFinishIgnored.
+
 Lemma run_turn_exchange t s :
   match run_turn Exchange t s with
-  | TCont fs => fs = turn_logs t ++ [data_frame t s] /\ t_act t = AEmit
-  | TFail _ => t_act t <> AEmit
+  | TCont fs => fs = turn_logs t ++ [data_frame t s] /\ exch_emits (t_act t)
+  | TFail _ => ~ exch_emits (t_act t)
   | TStop _ => False
   end.
-Proof. unfold run_turn. destruct (t_act t); try (intro; discriminate); split; reflexivity. Qed.
+Proof.
+  unfold run_turn, exch_emits. destruct (t_act t);
+    try (intros [H|H]; discriminate); split; try reflexivity; auto.
+Qed.
+
+(* a Finish the collector refuses (exchange) has no effect: the turn is judged exactly as if it had not been called *)
+Definition with_act (t : turn) (a : act) : turn :=
+  {| t_logs := t_logs t; t_act := a; t_value := t_value t; t_meta := t_meta t |}.
+
+Lemma refused_finish_no_effect t s :
+  run_turn Exchange (with_act t AEmitFinishIgnored) s = run_turn Exchange (with_act t AEmit) s
+  /\ run_turn Exchange (with_act t AFinishIgnored) s = run_turn Exchange (with_act t ANoEmit) s
+  /\ (forall fs, run_turn Exchange (with_act t AFinishIgnored) s <> TStop fs)
+  /\ (forall fs, run_turn Exchange (with_act t AEmitFinishIgnored) s <> TStop fs).
+Proof. repeat split; intros; discriminate. Qed.
 
 (* ---- the plan and how far the loop gets ---------------------------------- *)
 Fixpoint nrun (p : list (call * tres)) : nat :=
